@@ -14,7 +14,10 @@ POOL_OK = gens.VALID_FILTERS + ["a/b/c eq 1", "x/y/z/w ne null", "a/b/c/d/e eq a
                                 "status in ('new', 'open', 'held', 'done', 'void', 'open', 'new')", "id in (10, 20, 30, 40, 50, 60, 10)", "f.g(unit=0, radius=1, alpha=2, unit2=3)",
                                 "x in (a, b, c, a, geo.b, b)", "concat(concat(a, b), concat(b, a)) eq 'zz'"]
 POOL_BAD = ["a eq", "a eq 1 )", "(((", "a/b/c/d eq", "foo(1)", "distance(a, b) lt 1", "intersects(a, b)", "geo.contains(a, 'x')", "concat(1)", "substring(a)",
-            "a ½", "'abc", "a eq 'x", "x/any(", "a in (1", "f.g(x=1, 2)", "a/b/c/", "not", "1 2", "now(1)", "geo.length()", "contains(a)", "a/b/c/d eq ½"]
+            "a ½", "'abc", "a eq 'x", "x/any(", "a in (1", "f.g(x=1, 2)", "a/b/c/", "not", "1 2", "now(1)", "geo.length()", "contains(a)", "a/b/c/d eq ½",
+            # two errors in one string: a call that would be rejected, then a syntax / tokenising error later in the text (and the other way round)
+            "frobnicate(name) eq 1 and )", "substring(name) eq 'a' and price gt #5", "toupper(a, b) eq 'X' or (", "geo.nosuch(a) and ½", "concat(1) eq 2 eq", "now(1) ) (", ") and frobnicate(1)",
+            "length() eq 1 and 'x", "x/any(t: nosuch(t) eq 1 and", "f.g(length()) )"]
 # every OData built-in (names and arities from the specification, typed in here - NOT read from the library's table, which is what is being probed)
 # called with 0..4 arguments: acceptance of a call may not depend on which parts of the library were imported or used before
 BUILTIN_ARITIES = {"concat": (2, 2), "contains": (2, 2), "endswith": (2, 2), "indexof": (2, 2), "length": (1, 1), "startswith": (2, 2), "substring": (2, 3), "hassubset": (2, 2),
